@@ -9,19 +9,12 @@ COMMON_NOTE = ("Trusted: Lean 4.33 kernel + propext/Classical.choice/Quot.sound 
                "runs model (compiled driver) and implementation on the same generated inputs every run, and by a direct oracle on "
                "the real code that produces replays. ")
 
-CLAIMED = {
-    "C17": dict(
-        text="Theorems over the Lean model of TrafficLightCycle.get_state_at_time_step for ALL admissible cycles, offsets and "
-             "integer time steps: state = element whose window contains (t-offset) mod total (C17_stateAt_eq_spec), each element "
-             "covers exactly `duration` consecutive steps in order in every period (C17_window), periodicity (C17_periodic), "
-             "TrafficLight agrees with its cycle. Model tied to the code by correspondence on >=1500 cycles x ~40 time steps per run.",
-        note=COMMON_NOTE + "Modelled, not verified: numpy cumsum/insert/argmax/int64 arithmetic (assumed to denote list/integer "
-             "operations; sampled by the correspondence).",
-        technique="Lean 4 proof (induction over the cycle list, omega) + model/implementation correspondence + independent oracle",
-        design="§5 C17"),
-}
-
+CLAIMED = {}
 def main():
+    mdir = os.path.join(ROOT, "manifest.d")
+    for f in sorted(os.listdir(mdir)) if os.path.isdir(mdir) else []:
+        if f.endswith(".json"):
+            CLAIMED[f[:-5]] = json.load(open(os.path.join(mdir, f)))
     checks = []
     for pid in ALL:
         if pid not in CLAIMED:
